@@ -941,6 +941,10 @@ class OmniParser(PVLParser):
         if eq_pos is None:
             eq_pos = self.doc.rfind("=", 0, pos)
         lc = linecount(self.doc, eq_pos)
+        # Add the newlines that parse() took out before this position.
+        for (pos_removed, count) in getattr(self, "_removed_newlines", ()):
+            if pos_removed <= eq_pos:
+                lc += count
         self.errors.append(lc)
         return EmptyValueAtLine(lc)
 
@@ -953,7 +957,19 @@ class OmniParser(PVLParser):
         all whitespace characters that begin the next line will
         be removed.
         """
-        nodash = re.sub(r"-[\n\r\f]\s*", "", s)
+        # Also keep track of how many newlines are removed where, so
+        # that line numbers can still be given for the original text.
+        self._removed_newlines = list()
+        pieces = list()
+        last = 0
+        length = 0
+        for match in re.finditer(r"-[\n\r\f]\s*", s):
+            pieces.append(s[last:match.start()])
+            length += match.start() - last
+            self._removed_newlines.append((length, match.group().count("\n")))
+            last = match.end()
+        pieces.append(s[last:])
+        nodash = "".join(pieces)
         self.doc = nodash
 
         return super().parse(nodash)
